@@ -13,6 +13,8 @@ CHECKS = {
              note="Reduced digit alphabet {0,5,9} / {0,1,5,9} for the exhaustive part; durations logged exactly via fractions.Fraction. Trusted: TLC, the ~20-line text tokenizer of the harness.", tech="exact-integer TLA+ reference relations + TLC domain enumeration + TLC validation of recorded observations", ref='5/C06', engine='tlc-fn'),
  'C08': dict(text="TLC checks log replay and card round trip as invariants of the model, and order independence by exploring every interleaving of every planned round (MC_HJRound); on the real object from_actions(), from_matrix(to_matrix()) and all (small) or many (large) interleavings are executed and TLC compares the observed snapshots.",
              note="Same trusted base as C02. Known finding KF-HJ2 (pass in a jump-off column) attributed by a TLA+ predicate.", tech="TLA+ spec + TLC exhaustive interleaving exploration + trace validation of recorded executions", ref='5/C08', engine='tlc-hj'),
+ 'C13': dict(text="TLC proves the reference functions AgeGroups!TF / XC (completed-years ages on 31 Aug, 31 Dec and the day, civil-date arithmetic in integers) total, monotone in the birth date and option-independent; the real calc_uka_age_group is swept over competition dates of a full leap cycle x birth-date windows around every anniversary for ages 0-110 (thorough: the complete 110-year birth axis), five option / input-form columns, recorded run-length encoded; TLC evaluates the rule text at every birth date of every run and the structural clauses on all dates.",
+             note="Rule-text equality asserted for TF 1 Jan-30 Sep, XC/ROAD 1 Oct-30 Aug; one leap cycle 2021-2024. Trusted: TLC, datetime.date ordinals.", tech="exact-integer TLA+ reference function + TLC theorems on the reference + TLC validation of run-length-encoded sweeps", ref='5/C13', engine='tlc-fn'),
  'C16': dict(text="TLC explores three PlusCal sub-models at source-line granularity (lazily built table, per-call scratch on a shared grader, bounded cache at its limit) for 3 threads and every interleaving: the variants transcribing the code as it is now satisfy Linearizable / NoError, the as-it-was variants are refuted in the same run. The real functions are executed under a deterministic sys.settrace line scheduler, every schedule with <= 1 (quick) / 2 (thorough) forced pre-emptions at AST-detected visible lines, each execution in its own forked process (real first calls); TLC validates every recorded execution (result = single-threaded result per thread; published tables never partial).",
              note="Granularity = source line inside athlib; C-level atomicity under the GIL assumed; pre-emption bound 1/2. Trusted: TLC, CPython settrace.", tech="PlusCal/TLA+ interleaving models checked by TLC + controlled-scheduler executions of the real code validated by TLC", ref='5/C16', engine='tlc-sched'),
  'C19': dict(text="TLC explores SchemaCache.tla over all histories of length <= 3 (two caches, limit 2, valid/invalid keys, expect_failure both ways) and proves outcome = fresh outcome; the pre-fix model is refuted in the same run. Every TLC history is instantiated with concrete bundled files and replayed in its own process from empty caches, plus long random histories that overflow the 20-entry caches; every concrete call is first made in a fresh forked process (the oracle); TLC validates each recorded history (monitor: out = fresh; model step: cache contents).",
